@@ -527,3 +527,16 @@ class plscf_exact(_Exact):
     bounded_bound = ("orders 1-4, 2-4 channels, 1-Nch reference rows, 4(n+1)..4(n+1)+29 lines, dt in {0.01, 0.05, 0.2}, both basis-function signs, ordmax in {n, n+1}; "
                      "coefficients compared to 1e-6, reported poles against the roots of det A(x) from an independent companion matrix")
     bounded_driver = {"driver": "c05_exact", "inputs": {"trials": 25, "trials_thorough": 300}}
+
+
+@register
+class ssi_ms_exact(_Exact):
+    qualname = "pyoma2.functions.ssi.SSI_multi_setup"
+    props = ("C03",)
+    name = "exact recovery"
+    bounded_reason = ("unsupported: 'identifies the global system exactly' is a theorem about SVD / pseudo-inverse rescaling of per-setup observability blocks and "
+                      "floating-point conditioning; fancy-indexed row selections of kernel results and their products are outside what the matrix-term level can unify")
+    bounded_bound = ("1-3 modes, 2-3 setups, 1-3 reference and 1-3 roving sensors per setup, references at random positions of the channel list in random listed order, "
+                     "per-setup gains over four decades, br = 2m+2..2m+4, 800 samples; SSIcov_MS(cov_mm) and SSIdat_MS through MultiSetup_PreGER.run_by_name; "
+                     "frequencies, damping and MAC against the global system at order 2m (tolerance 1e-4)")
+    bounded_driver = {"driver": "c03_exact", "inputs": {"trials": 8, "trials_thorough": 80}}
